@@ -23,13 +23,15 @@ RULE = (
     "anchored payload order. Non-trivial: >= 3 non-fixed visible elements with >= 2 distinct "
     "finite values, or a fallback."
 )
+POP_SIG = "population-sort-ranks-differences-by-unmasked-values"
 BOUNDS = "respondents 0..30, valid categories 1..5, items 1..4, insertions 0..3"
 ASSUMPTIONS = [
     "population keywords: filter fraction is 1 and the population positive (the keyword maps to "
     "a monotone transform of the public estimates only then)",
     "opposing_insertion against an array-type opposing dimension only with unknown ids",
-    "NaN placement inside the subtotal group is not asserted for population keywords (public "
-    "values of differences are masked after sorting)",
+    "population keywords with a difference (public estimate NaN) as sort key or inside the "
+    "subtotal group: asserted like any NaN-valued vector; the library ranks them by the "
+    "unmasked proportion - recorded known finding, signature " + POP_SIG,
 ]
 
 MEASURE_PROP = {
@@ -200,9 +202,9 @@ def reference_values(case, R, orc_dims, strand):
         kw = (vins[ids.index(order["insertion_id"])].get("kwargs") or {})
         if str(order.get("measure", "")).startswith("population") and \
                 set(kw.get("negative") or []) & set(opp_dim.keys):
-            # the public population estimates of a DIFFERENCE are masked to NaN after the
-            # sort has used the unmasked values: nothing public to judge the order against
-            return "skip"
+            # the public population estimates of a DIFFERENCE are NaN: every element is
+            # NaN-valued and the property asks for payload order (see POP_SIG)
+            case["_opposing_difference"] = True
     if key not in opp_order:
         return None
     q = opp_order.index(key)
@@ -230,10 +232,11 @@ def judge(case, rec):
     if len(set(got)) != len(got):
         rec.violation("order lists a vector twice: %r" % got, "duplicate")
         return
+    case.pop("_opposing_difference", None)
     values = reference_values(case, R, odims, strand)
-    if values == "skip":
-        rec.event("population sort by a difference: skipped")
-        return
+    opposing_difference = bool(case.pop("_opposing_difference", False))
+    if opposing_difference:
+        rec.event("population sort by an opposing difference")
     meta = case["meta"]
     refs = _refs(own)
     can = own.kind in ("cat", "ca_cats")
@@ -298,20 +301,26 @@ def judge(case, rec):
                       "fixed top %r bottom %r" % (elems, want_head, want_tail), "fixed")
         return
     pop_kw = str(order.get("measure", "")).startswith("population")
-    for name, seq, check_nan in (("body", body, True), ("subtotals", subs, not pop_kw)):
+    own_diffs = set(k - m for k, ins in enumerate(vins)
+                    if set((ins.get("kwargs") or {}).get("negative") or []) & set(own.keys))
+    for name, seq in (("body", body), ("subtotals", subs)):
         vals = [values[s] for s in seq]
         nan_flags = [_is_nan(v) for v in vals]
         finite = [(s, v) for s, v, f in zip(seq, vals, nan_flags) if not f]
         nans = [s for s, f in zip(seq, nan_flags) if f]
         rec.compared()
-        if check_nan and nans:
+        if nans:
             # NaN-valued vectors last, in payload order
             if seq[len(seq) - len(nans):] != nans or nans != sorted(nans):
+                sig = "nan-placement"
+                if pop_kw and (opposing_difference or
+                               (name == "subtotals" and set(nans) <= own_diffs)):
+                    # population estimates of differences are public NaN, but the sort
+                    # ranks them by the unmasked proportion
+                    sig = POP_SIG
                 rec.violation("%s: NaN-valued vectors %r are not last in payload order in %r "
-                              "(values %r)" % (name, nans, seq, vals), "nan-placement")
+                              "(values %r)" % (name, nans, seq, vals), sig)
                 continue
-        elif nans and not check_nan:
-            continue
         fv = [v for _, v in finite]
         for a, b in zip(fv, fv[1:]):
             bad = (a < b) if descending else (a > b)
